@@ -91,6 +91,8 @@ func (w *World) runStructural(spec string) []structResult {
 		return w.structPool()
 	case "fswriters":
 		return w.structFSWriters()
+	case "flags":
+		return w.structFlags(parts[1])
 	case "stdoutwriters":
 		return w.structStdoutWriters(strings.Split(parts[1], ","))
 	case "globalstore":
@@ -384,4 +386,73 @@ func (w *World) structStdoutWriters(allowed []string) []structResult {
 		}
 	}
 	return []structResult{{Name: "stdoutwriters:only-in-" + strings.Join(allowed, "+"), OK: len(bad) == 0 && n > 0, Detail: fmt.Sprintf("%d direct uses of the process's standard output; %s", n, strings.Join(bad, "; "))}}
+}
+
+// structFlags: the command-line flags are bound to the Options fields the contracts of App.Run speak
+// about, with the documented names and a false / empty default. Spec: "Field=name,Field=name,...".
+// Checked on the SSA of cli/cmd.BuildRootCmd: every call of cli.Flag(&spok.Options.<Field>, "<name>",
+// short, <default>, usage).
+func (w *World) structFlags(spec string) []structResult {
+	want := map[string]string{}
+	for _, kv := range strings.Split(spec, ",") {
+		p := strings.SplitN(kv, "=", 2)
+		if len(p) == 2 {
+			want[p[0]] = p[1]
+		}
+	}
+	fn := w.prog.funcs["cli_cmd.BuildRootCmd"]
+	if fn == nil || fn.Blocks == nil {
+		return []structResult{{Name: "flags:bindings", OK: false, Detail: "cli/cmd.BuildRootCmd not found"}}
+	}
+	got := map[string]string{}
+	var bad []string
+	for _, b := range fn.Blocks {
+		for _, ins := range b.Instrs {
+			call, ok := ins.(*ssa.Call)
+			if !ok {
+				continue
+			}
+			callee := call.Call.StaticCallee()
+			if callee == nil || callee.Pkg == nil && callee.Origin() == nil {
+				continue
+			}
+			if !strings.HasSuffix(funcKey(callee), "cli.Flag") {
+				continue
+			}
+			pos := w.prog.prog.Fset.Position(ins.Pos()).String()
+			fa, ok := call.Call.Args[0].(*ssa.FieldAddr)
+			if !ok {
+				bad = append(bad, "flag at "+pos+" is not bound to a field of Options")
+				continue
+			}
+			st := fa.X.Type().Underlying().(*types.Pointer).Elem().Underlying().(*types.Struct)
+			field := st.Field(fa.Field).Name()
+			if nt, ok := types.Unalias(fa.X.Type().Underlying().(*types.Pointer).Elem()).(*types.Named); !ok || nt.Obj().Name() != "Options" {
+				bad = append(bad, "flag at "+pos+" is bound to a field of something else than app.Options")
+			}
+			name := ""
+			if k, ok := call.Call.Args[1].(*ssa.Const); ok && k.Value != nil {
+				name = strings.Trim(k.Value.ExactString(), "\"")
+			}
+			if _, dup := got[field]; dup {
+				bad = append(bad, "Options."+field+" is bound to two flags")
+			}
+			got[field] = name
+			if k, ok := call.Call.Args[3].(*ssa.Const); !ok || !(k.Value == nil || k.Value.ExactString() == "false" || k.Value.ExactString() == "\"\"") {
+				bad = append(bad, "flag --"+name+" at "+pos+" does not default to false / the empty string")
+			}
+		}
+	}
+	for f, n := range want {
+		if got[f] != n {
+			bad = append(bad, fmt.Sprintf("Options.%s is bound to flag %q, expected %q", f, got[f], n))
+		}
+	}
+	for f, n := range got {
+		if _, ok := want[f]; !ok {
+			bad = append(bad, fmt.Sprintf("unexpected flag %q bound to Options.%s", n, f))
+		}
+	}
+	sort.Strings(bad)
+	return []structResult{{Name: "flags:bindings", OK: len(bad) == 0, Detail: fmt.Sprintf("%d flags; %s", len(got), strings.Join(bad, "; "))}}
 }
